@@ -908,7 +908,7 @@ def main():
     gdt = []
     if "--gdt" in sys.argv:
         results = []
-        for MAX in (2, 3, 8):
+        for MAX in [int(x) for x in os.environ.get("VERIF_M_MAXES", "2,3,8").split(",")]:
             for system in (False, True):
                 r = decide_gdt_append(fns, MAX, system)
                 r["obligation"] = f"GlobalDescriptorTable::<{MAX}>::append({'System' if system else 'User'}Segment): a panicking append leaves the table unchanged; panics exactly when it does not fit"
